@@ -2,7 +2,11 @@
 use crate::util::*;
 use fastpasta::analyze::validators::lib::preprocess_payload;
 
-fn mk_word(rng: &mut Rng, idx: usize) -> [u8; 10] {
+fn mk_word(rng: &mut Rng, idx: usize, n: usize) -> [u8; 10] {
+    // a corrupted word of ten 0xFF in the middle of a payload is still a word (only the END of a payload is padding)
+    if idx >= 1 && idx + 1 < n && rng.chance(1, 12) {
+        return [0xFFu8; 10];
+    }
     let mut w = [0u8; 10];
     for b in w.iter_mut() {
         *b = rng.below(256) as u8;
@@ -49,12 +53,17 @@ pub fn main(args: &[String]) -> i32 {
         for &n in &counts {
             let ffs: Vec<usize> = if n <= max_words { (0..=max_ff).collect() } else { vec![0, rng.below(16) as usize, 9, 10, 15, 16, rng.below(41) as usize] };
             for ff in ffs {
-                let words: Vec<[u8; 10]> = (0..n).map(|i| mk_word(&mut rng, i)).collect();
+                let words: Vec<[u8; 10]> = (0..n).map(|i| mk_word(&mut rng, i, n)).collect();
                 let mut p: Vec<u8> = Vec::new();
                 for w in &words {
                     p.extend_from_slice(w);
                     if fmt == 0 {
-                        p.extend_from_slice(&[0u8; 6]);
+                        // the slot of an all-0xFF word is sometimes 0xFF throughout (16 bytes)
+                        if w.iter().all(|b| *b == 0xFF) && rng.chance(1, 2) {
+                            p.extend_from_slice(&[0xFFu8; 6]);
+                        } else {
+                            p.extend_from_slice(&[0u8; 6]);
+                        }
                     }
                 }
                 // a format 0 payload that ends in zero padding has no trailing 0xFF of its own, format 2 may end in 0xFF
